@@ -477,7 +477,8 @@ FAMILIES = {
     "bool": ["And2", "AndL", "And1", "And0", "Or2", "Or1", "Or0", "Not", "Implies", "Iff", "EqIffB", "Bool"],
     "bool3": ["And3", "And2", "And1L", "And0L", "OrL", "Not", "TRUE", "FALSE"],
     "rel": ["LE", "GE", "LT", "GT", "Equals", "EqIffN"],
-    "arith": ["Plus2", "PlusL", "Plus1", "Plus0", "Times2", "Times1", "Times0", "Minus", "Div", "Int", "Real"],
+    "arith1": ["Plus2", "PlusL", "Plus1", "Plus0", "Minus", "Int"],
+    "arith2": ["Times2", "Times1", "Times0", "Div", "Real", "Plus2"],
     "infix-n": ["iadd", "iradd", "isub", "imul", "ineg", "ipos", "Plus2", "Minus", "Times2"],
     "infix-r": ["ige", "igt", "ile", "ilt", "LE", "LT", "mEquals", "Equals"],
     "infix-b": ["iinv", "iand", "ior", "mNot", "Not", "And2", "Or2"],
@@ -488,13 +489,12 @@ FAMILIES = {
 DEEP = {
     "bool-a": (["And2", "Not", "And1", "Or2"], ["b1"]),
     "bool-b": (["Implies", "Iff", "Not", "Or1", "Bool"], ["b1"]),
-    "bool-c": (["And3", "OrL", "Not", "And0"], ["b1"]),
     "rel-a": (["LE", "GE", "Not", "Plus2"], ["n"]),
-    "rel-b": (["LT", "GT", "Equals", "ineg"], ["n"]),
-    "arith-a": (["Plus2", "Plus1", "Minus", "Times2"], ["n"]),
+    "arith-a": (["Plus2", "Plus1", "Minus"], ["n"]),
     "arith-b": (["Times2", "Times1", "Div", "Plus0", "Times0"], ["n"]),
-    "infix-a": (["iadd", "Plus2", "ige", "LE", "ineg"], ["n"]),
-    "quant-a": (["Exists", "Forall", "Not", "And2"], ["py"]),
+    "infix-a": (["iadd", "ige", "LE", "ineg"], ["n"]),
+    "quant-a": (["Exists", "Not"], ["py"]),
+    "quant-b": (["Forall", "Exists"], ["py"]),
 }
 
 
@@ -505,18 +505,21 @@ def shards(tier, seed):
 
     def add(name, **kw):
         eng = kw.pop("engine", "symex")
-        out.append(dict(name=name, fn="h_history", kwargs=kw, budget=B, per_path=30, engine=eng))
+        # the direct engine's budget is wall time: generous, the machine is shared (measured: <= 45 s CPU per quick shard)
+        out.append(dict(name=name, fn="h_history", kwargs=kw, budget=B if eng == "symex" else 3 * B, per_path=30, engine=eng))
 
     # ---- concrete literals, real dict, direct engine: structure
-    lits_q = [0, 2, 4, 5, 6, 9]  # indices into CONCRETE_LITS: 0, 2, 1/2, 4/2, 0.5, '0.5'
+    lits_q = [2, 5, 6, 8]  # indices into CONCRETE_LITS: 2, 4/2, 0.5, '2'
     for fam in ("bool", "bool3", "infix-b"):
         add(f"direct-pairs-{fam}", ops=FAMILIES[fam], plan=["free"] * (3 if deep else 2), leaves=["b1", "b2"], engine="direct")
-    for fam in ("rel", "arith", "infix-n", "infix-r"):
-        add(f"direct-pairs-{fam}", ops=FAMILIES[fam], plan=["free", "free"] + (["again"] if deep else []), lits="concrete", leaves=["n", "r"],
+    for fam in ("rel", "arith1", "arith2", "infix-n", "infix-r"):
+        add(f"direct-pairs-{fam}", ops=FAMILIES[fam], plan=["free", "free"] + (["again"] if deep else []), lits="concrete", leaves=["n"],
             engine="direct", forms=None if deep else lits_q, max_lits=4 if deep else 2)
     add("direct-pairs-leaves", ops=FAMILIES["leaves"], plan=["free"] * (3 if deep else 2), leaves=["o1", "x", "y"], engine="direct")
     add("direct-pairs-quant", ops=FAMILIES["quant"], plan=["free"] * (3 if deep else 2), leaves=["py", "y"], engine="direct")
     for nm, (ops, lv) in DEEP.items():
+        if not deep and nm in ("bool-b", "quant-b"):
+            continue
         numeric = lv == ["n"]
         add(f"direct-deep-{nm}", ops=ops, plan=["free"] * (4 if deep else 3), leaves=lv, engine="direct",
             lits="concrete" if numeric else None, forms=[2, 4] if numeric else None, max_lits=2 if deep else 1,
@@ -525,14 +528,18 @@ def shards(tier, seed):
     # (arithmetic nodes over symbolic literals are not built: TypeChecker.walk_plus/minus/times compare the symbolic bound with
     #  float("inf"), a floating-point query per node that z3 answers in 5-10 s or not at all; Plus1/Times1 return their promoted operand)
     consts = ["Int", "Real", "Plus1", "Times1"]
-    for first in consts:
+    for first in consts if deep else consts[:3]:
         add(f"sym-const-{first}", ops=consts, plan=[first, "free"] + (["free"] if deep else []), lits="sym", leaves=["n"], max_lits=4)
-    add("sym-const-again", ops=consts, plan=["free", "again", "again"], lits="sym", leaves=["n"], max_lits=4)
-    for nm, ops, forms in (("le-ge-int", ["LE", "GE"], ["int"]), ("le-ge-frac2", ["LE", "GE"], ["frac2"]), ("lt-gt-frac4", ["LT", "GT"], ["frac4"]),
+    add("sym-const-again", ops=consts, plan=["free", "again"] + (["again"] if deep else []), lits="sym", leaves=["n"], max_lits=4)
+    for nm, ops, forms in (("le-ge-int", ["LE", "GE"], ["int"]), ("le-ge-frac2", ["LE", "GE"], ["frac2"]), ("lt-gt-frac4", ["GT", "LT"], ["frac4"]),
                            ("lt-gt-int", ["LT", "GT"], ["int"]), ("eq-le-int", ["Equals", "LE"], ["int"]), ("eq-ge-frac2", ["EqIffN", "GE"], ["frac2"]),
                            ("infix-int", ["ige", "ile", "LE"], ["int"]), ("infix-frac2", ["igt", "ilt", "mEquals"], ["frac2"])):
-        add(f"sym-{nm}", ops=ops, plan=["free", "free", "again"] + (["again"] if deep else []), lits="sym", forms=forms, leaves=["n"],
-            max_lits=2 if not deep else 3)
+        if not deep and nm == "infix-frac2":
+            continue
+        plan = ["free", "free"] + (["again"] if forms == ["int"] or deep else []) + (["again"] if deep and forms == ["int"] else [])
+        if forms == ["frac4"] and not deep:
+            plan[0] = ops[0]
+        add(f"sym-{nm}", ops=ops, plan=plan, lits="sym", forms=forms, leaves=["n"], max_lits=2 if not deep else 3)
     return out
 
 
